@@ -377,7 +377,7 @@ def kept_schedule(obs, alias, created):
     def entry(state):
         for item in state["dict"]:
             key, val = item.split("=", 1)
-            if bytes.fromhex(key).decode("utf-8", "surrogatepass") == alias:
+            if bytes.fromhex(key).decode("utf-8", "surrogatepass").split("\0")[0] == alias:  # (a key may carry more than the instance name)
                 f = val.split(",")
                 return int(f[4]), f[5]
         return None
@@ -468,6 +468,12 @@ def oracle(case, obs):
     if case["kind"] != "browser":
         return bad
     # ---- per-record history (key: lower-cased alias, RFC/C20 identity)
+    def browsed(ty):
+        """the pointer record concerns this browser: its owner name is a browsed type or a subtype of one (`_printer._sub._http._tcp.local.`
+        for a browser of `_http._tcp.local.`).  Such a record is reported (Added under the parent type) and must be kept alive like any
+        other: "queried for" = a question for the record's OWN name"""
+        return ty in case["types"] or any(ty.endswith("._sub." + T) for T in case["types"])
+
     hist = {}
     act_t = obs.get("act_t") or []
     for k_, act in enumerate(case["script"]):
@@ -475,11 +481,11 @@ def oracle(case, obs):
             t, _, alias, ty, ttl = act
             if k_ < len(act_t):
                 t = act_t[k_]
-            if ty in case["types"] and t + T0 < t_end:
+            if browsed(ty) and t + T0 < t_end:
                 hist.setdefault((ty, alias.lower()), []).append((t + T0, ttl if ttl == 0 else max(ttl, floor_ttl)))
     warm = set()
     for (alias, ty, ttl, age) in case.get("warm", []):
-        if ty in case["types"]:
+        if browsed(ty):
             hist.setdefault((ty, alias.lower()), []).insert(0, (obs["t_create"] - age, ttl))
             warm.add((ty, alias.lower()))
     post = [q for q in queries[4:]] if len(queries) >= 4 else []
@@ -517,6 +523,22 @@ def oracle(case, obs):
             ivs.append((cur[0], cur[1], min(cur[0] + 1000 * cur[1], t_end), cur[2], "final"))
         lives[key] = ivs
     solo = sum(1 for act in case["script"] if act[1] == "rec") == 1
+
+    def shared_alias(ty, alias, lo_t, hi_t):
+        """FINDING C10:alias-shared-by-two-types: the same instance name is held under two owner names at once (its type and a subtype of
+        it, both concerning this browser).  The scheduler keys its entries by the instance name alone, so the two records share ONE
+        entry: one of them is never asked for, and the expiry / withdrawal of either cancels the other's schedule.  Recognised only for
+        exactly that input: another record with the same instance name and a different owner name, alive some time in [lo_t, hi_t]"""
+        for (ty2, al2), ivs2 in lives.items():
+            if al2 == alias and ty2 != ty and any(c2 <= hi_t and lo_t <= c2 + 1000 * T2 for (c2, T2, _e, _n, _h) in ivs2):
+                return ty2
+        return None
+
+    def sig_for(sig, ty, alias, c, expire):
+        other = shared_alias(ty, alias, c, expire)
+        if other is None:
+            return sig, ""
+        return "C10:alias-shared-by-two-types", " [the instance is also held under %s: one scheduler entry for both records; would be %s]" % (other, sig)
     # ---- refresh liveness for records left unrefreshed
     for (ty, alias), ivs in lives.items():
         for (c, T, end, nlearn, how) in ivs:
@@ -550,8 +572,9 @@ def oracle(case, obs):
                                 % (alias, T, c - T0, w - T0, k - T0, k - w, ty, lateq[0] - T0, lateq[0] - w, delay)))
                     cand = lateq
             if not cand:
-                bad.append(("C10:no-refresh-query", "record %s (TTL %d learned at %d ms) got no query for %s in [%d, %d]"
-                            % (alias, T, c - T0, ty, lo - T0, hi - T0)))
+                sg, extra = sig_for("C10:no-refresh-query", ty, alias, c, expire)
+                bad.append((sg, "record %s (TTL %d learned at %d ms) got no query for %s in [%d, %d]%s"
+                            % (alias, T, c - T0, ty, lo - T0, hi - T0, extra)))
                 continue
             ok_chain = False
             why = None
@@ -572,17 +595,21 @@ def oracle(case, obs):
                     ok_chain = True
                     break
             if not ok_chain:
-                bad.append(("C10:no-rescue-query", "record %s (TTL %d learned at %d ms): no follow-up query for %s in [%d, %d]"
-                            % (alias, T, c - T0, ty, why - T0, why + delay - T0)))
+                sg, extra = sig_for("C10:no-rescue-query", ty, alias, c, expire)
+                bad.append((sg, "record %s (TTL %d learned at %d ms): no follow-up query for %s in [%d, %d]%s"
+                            % (alias, T, c - T0, ty, why - T0, why + delay - T0, extra)))
     # ---- Removed by expiry only after refresh attempts
     for (t, kind, ty, name) in obs["callbacks"]:
         if kind != "rem" or threaded:  # (the synchronous browser calls back from its own thread: no virtual time stamp)
             continue
-        for (c, T, end, nlearn, how) in lives.get((ty, name.lower()), []):
+        # (the callback names the browsed type; the record that expired may be a subtype pointer, refreshed under its own name)
+        for (rty, (c, T, end, nlearn, how)) in [(ty2, iv) for (ty2, al2), ivs2 in lives.items()
+                                                if al2 == name.lower() and (ty2 == ty or ty2.endswith("._sub." + ty)) for iv in ivs2]:
             if how in ("final", "expired") and c + 1000 * T <= t <= c + 1000 * T + 11000 and c + 1000 * T < t_end:
-                if not hits(ty, c + 750 * T - delay, c + 1000 * T):
-                    bad.append(("C10:removed-without-refresh", "%s reported Removed at %d ms by expiry, no refresh query for %s had been sent"
-                                % (name, t - T0, ty)))
+                if not hits(rty, c + 750 * T - delay, c + 1000 * T):
+                    sg, extra = sig_for("C10:removed-without-refresh", rty, name.lower(), c, c + 1000 * T)
+                    bad.append((sg, "%s reported Removed at %d ms by expiry, no refresh query for %s had been sent%s"
+                                % (name, t - T0, rty, extra)))
     # ---- no query on the old schedule of a refreshed / withdrawn record: every query after start-up is
     # justified by a record that is live then and inside its refresh phase
     for q in post:
@@ -621,6 +648,10 @@ def gen_browser_case(rng, i):
         ty = rng.choice(types)
         base = "i%d" % k
         alias = "%s.%s" % (rng.choice([base, base.upper(), "Svc%d" % k]), ty)
+        if rng.random() < 0.18:
+            # a SUBTYPE pointer (RFC 6763 7.1) of a browsed type, heard as the answer to somebody else's subtype query: its owner name
+            # ends in the browsed type, the browser reports the instance and has to keep THIS record alive under its own name
+            ty = "_printer._sub." + ty
         ttl = rng.choice([60, 1125, 1126, 1200, 2000, 4500, 4500, 9000])
         T = max(ttl, 1125)
         c = rng.choice([0, 10, 20, 119, 120, 1100, 5000, 14200, 20000, 60000, 300000, rng.randint(0, 3_000_000)])
@@ -706,6 +737,15 @@ def gen_special_cases(rng):
     for qtype in (None, "QM"):
         out.append(("bulk", {"kind": "browser", "delay": 10000, "qtype": qtype, "types": list(TYPES), "simseed": rng.randint(0, 10**6),
                              "horizon": 16000, "script": [], "bulk": 32}))
+    # subtype pointers of a browsed type: alone (must be kept alive under their own name), and next to the parent-type pointer of the
+    # same instance (FINDING C10:alias-shared-by-two-types)
+    ty = TYPES[0]
+    sub = "_printer._sub." + ty
+    for script in ([[20000, "rec", "i0." + ty, sub, 1125]],
+                   [[20000, "rec", "i0." + ty, sub, 1125], [30000, "rec", "i1." + ty, ty, 1125]],
+                   [[20000, "rec", "i0." + ty, ty, 1125], [25000, "rec", "i0." + ty, sub, 1125]]):
+        out.append(("subtype", {"kind": "browser", "delay": rng.choice([1000, 10000]), "qtype": rng.choice([None, "QM"]), "types": [ty],
+                                "simseed": rng.randint(0, 10**6), "horizon": 1200000, "script": script}))
     # the configured delay really is the scheduler's: two records of one type whose 75% instants lie closer than the delay, synchronous and
     # asynchronous browser, on an exact and on a late loop (the second query is rate-limited: exactly one delay after the first)
     for threaded in (False, True):
